@@ -216,3 +216,15 @@ def replay(ctx, path):
         me.cut_offsets = old
     print("replay: %s" % ([x.what for x in v[:3]] or "property holds at this cut"))
     return 1 if v else 0
+
+
+def corpus(ctx, entry):
+    rp = entry["replay"]
+    import props.C06 as me
+    old = me.cut_offsets
+    k = rp["cut"]
+    me.cut_offsets = lambda rnd, d, s, ex: [c for c in (k - 1, k, k + 1) if 4 <= c <= len(d)]
+    try:
+        return check_file(ctx, ctx.get_model() if ctx.build_ok else None, ctx.nptdms(), bytes.fromhex(rp["file"]), dict(files=0, cuts=0, lazy=0, status=0), True, False, False)
+    finally:
+        me.cut_offsets = old
